@@ -35,6 +35,7 @@ AddrSpelled(a, b, i, not) ==
 List(s) == [t |-> "list", v |-> s]
 Map(ks, vs) == [t |-> "map", k |-> ks, v |-> vs]
 Null == [t |-> "null"]
+NaN == [t |-> "nan"]          \* YAML .nan: a float that is not a number
 
 IsMap(n) == n.t = "map"
 IsList(n) == n.t = "list"
@@ -295,6 +296,10 @@ HostsWithFw(d) == LET m == Get(d, "host_configurations") IN
 NthOf(S, p) == CHOOSE x \in S : Cardinality({y \in S : y < x}) = p - 1
 SensHostIdx(d) == LET m == Get(d, "host_configurations") IN
                   {i \in 1..Len(m.k) : HasAddr(Get(d, "sensitive_hosts"), m.k[i].v)}
+\* the rules the topology requires (a rule between subnets that are not connected is superfluous but allowed)
+RequiredRules(d) ==
+    LET m == Get(d, "firewall") IN
+    {i \in 1..NFW(d) : m.k[i].t = "addr" /\ (ConnD(d, m.k[i].v[1], m.k[i].v[2]) \/ ConnD(d, m.k[i].v[2], m.k[i].v[1]))}
 NonEmptyRules(d) == {i \in 1..NFW(d) : Len(Get(d, "firewall").v[i].v) > 0}
 
 NPos(r, d) ==
@@ -308,11 +313,13 @@ NPos(r, d) ==
       [] r \in {"topology_row_short", "topology_bad_entry"} -> NSubD(d)
       [] r \in {"sensitive_bad_subnet", "sensitive_bad_host", "sensitive_nonpositive"} -> NSens(d)
       [] r = "exploit_missing_field" -> 5 * NE(d)
-      [] r \in {"exploit_unknown_service", "exploit_unknown_os", "exploit_prob_high", "exploit_prob_negative",
-                "exploit_cost_nonpositive", "exploit_bad_access"} -> NE(d)
+      [] r \in {"exploit_unknown_service", "exploit_unknown_os", "exploit_prob_negative",
+                "exploit_bad_access"} -> NE(d)
+      [] r \in {"exploit_prob_high", "exploit_cost_nonpositive"} -> 2 * NE(d)     \* second variant: not a number
+      [] r \in {"privesc_prob_high", "privesc_cost_nonpositive"} -> 2 * NP(d)
       [] r = "privesc_missing_field" -> 5 * NP(d)
-      [] r \in {"privesc_unknown_process", "privesc_unknown_os", "privesc_prob_high", "privesc_prob_negative",
-                "privesc_cost_nonpositive", "privesc_bad_access"} -> NP(d)
+      [] r \in {"privesc_unknown_process", "privesc_unknown_os", "privesc_prob_negative",
+                "privesc_bad_access"} -> NP(d)
       [] r = "scan_cost_negative" -> 4
       [] r \in {"host_missing", "host_unknown_service", "host_duplicate_service", "host_unknown_process",
                 "host_duplicate_process", "host_firewall_not_map",
@@ -321,21 +328,25 @@ NPos(r, d) ==
       [] r \in {"host_value_nonnumeric", "host_firewall_bad_address"} -> 4 * NHC(d)
       [] r = "host_superfluous" -> 1
       [] r = "host_value_contradicts_sensitive" -> 3 * Cardinality(SensHostIdx(d))
-      [] r \in {"firewall_rule_missing", "firewall_rule_not_list", "firewall_rule_unknown_service"} -> NFW(d)
+      [] r = "firewall_rule_missing" -> Cardinality(RequiredRules(d))     \* a superfluous rule may be dropped
+      [] r \in {"firewall_rule_not_list", "firewall_rule_unknown_service"} -> NFW(d)
       [] r = "firewall_rule_duplicate_service" -> Cardinality(NonEmptyRules(d))
-      [] r \in {"step_limit_zero", "step_limit_negative"} -> 1
+      [] r = "step_limit_zero" -> 2                        \* 0 / a fractional number (2.5)
+      [] r = "step_limit_negative" -> 1
 
 BreakAct(d, sec, what, r, p) ==
     LET m == Get(d, sec)
         kind == IF sec = "exploits" THEN "exploit" ELSE "privesc"
-        i == IF r = kind \o "_missing_field" THEN ((p - 1) \div 5) + 1 ELSE p
+        two == r \in {kind \o "_prob_high", kind \o "_cost_nonpositive"}
+        nan == two /\ (p - 1) % 2 = 1
+        i == IF r = kind \o "_missing_field" THEN ((p - 1) \div 5) + 1 ELSE IF two THEN ((p - 1) \div 2) + 1 ELSE p
         e == m.v[i]
         e2 == CASE r = kind \o "_missing_field" -> DropKey(e, ActFields(what)[((p - 1) % 5) + 1])
                 [] r \in {"exploit_unknown_service", "privesc_unknown_process"} -> SetKey(e, what, StrN("zz_unknown"))
                 [] r = kind \o "_unknown_os" -> SetKey(e, "os", StrN("zz_unknown_os"))
-                [] r = kind \o "_prob_high" -> SetKey(e, "prob", NumN(1500000))
+                [] r = kind \o "_prob_high" -> SetKey(e, "prob", IF nan THEN NaN ELSE NumN(1500000))
                 [] r = kind \o "_prob_negative" -> SetKey(e, "prob", NumN(-100000))
-                [] r = kind \o "_cost_nonpositive" -> SetKey(e, "cost", IntN(0))
+                [] r = kind \o "_cost_nonpositive" -> SetKey(e, "cost", IF nan THEN NaN ELSE IntN(0))
                 [] r = kind \o "_bad_access" -> SetKey(e, "access", IF p % 2 = 0 THEN IntN(3) ELSE StrN("admin"))
     IN SetKey(d, sec, SetAt(m, i, e2))
 
@@ -425,7 +436,8 @@ Break(r, p, d) ==
       [] r \in {"host_unknown_service", "host_duplicate_service", "host_unknown_process", "host_duplicate_process",
                 "host_unknown_os", "host_firewall_not_map", "host_firewall_bad_address",
                 "host_firewall_unknown_service", "host_value_nonnumeric"} -> BreakHost(d, r, p)
-      [] r = "firewall_rule_missing" -> SetKey(d, "firewall", DropAt(Get(d, "firewall"), p))
+      [] r = "firewall_rule_missing" ->
+           SetKey(d, "firewall", DropAt(Get(d, "firewall"), NthOf(RequiredRules(d), p)))
       [] r = "firewall_rule_not_list" -> SetKey(d, "firewall", SetAt(Get(d, "firewall"), p, StrN(SrvD(d)[1])))
       [] r = "firewall_rule_unknown_service" ->
            LET m == Get(d, "firewall") IN
@@ -433,7 +445,7 @@ Break(r, p, d) ==
       [] r = "firewall_rule_duplicate_service" ->
            LET m == Get(d, "firewall")  i == NthOf(NonEmptyRules(d), p) IN
            SetKey(d, "firewall", SetAt(m, i, List(Append(m.v[i].v, m.v[i].v[1]))))
-      [] r = "step_limit_zero" -> SetKey(d, "step_limit", IntN(0))
+      [] r = "step_limit_zero" -> SetKey(d, "step_limit", IF p = 1 THEN IntN(0) ELSE NumN(2500000))
       [] r = "step_limit_negative" -> SetKey(d, "step_limit", IntN(-5))
 
 =============================================================================
